@@ -132,59 +132,64 @@ Definition looks_like_object_hash (s : bytes) : bool :=
 
 Definition refs_prefix : bytes := bs "refs/".
 
-Definition parse_fetch (spec0 : bytes) : outcome rspec perr :=
+(* the part of `parse` after source and destination have been split *)
+Definition parse_finish (m : mode) (src dst : option bytes) : outcome rspec perr :=
+  let src := match src with
+             | Some s => if bytes_eqb s (bs "@") then Some HEAD else Some s
+             | None => None
+             end in
+  (sv <- validated src ;;
+   dv <- validated dst ;;
+   let '(src, src_pat) := sv in
+   let '(dst, dst_pat) := dv in
+   if negb (mode_eqb m Negative) && negb (Bool.eqb src_pat dst_pat) then Err PatternUnbalanced
+   else if mode_eqb m Negative then
+     match src with
+     | Some s =>
+         if src_pat then Err NegativeGlobPattern
+         else if looks_like_object_hash s then Err NegativeObjectHash
+         else if negb (starts_with refs_prefix s) && negb (bytes_eqb s HEAD) then Err NegativePartialName
+         else Ok {| smode := m; ssrc := src; sdst := dst |}
+     | None => Err NegativeEmpty
+     end
+   else Ok {| smode := m; ssrc := src; sdst := dst |})%outcome.
+
+(* the part of `parse` that finds mode, source and destination; None: the early `fetch_head_only` return *)
+Definition parse_split (spec0 : bytes) : outcome (mode * option (option bytes * option bytes)) perr :=
   match spec0 with
-  | [] => Ok (fetch_head_only Normal)
+  | [] => Ok (Normal, None)
   | c :: rest =>
       let '(m, spec) :=
         if beqb c x5e then (Negative, rest)
         else if beqb c x2b then (Force, rest)
         else (Normal, spec0) in
-      let split : outcome (option (option bytes * option bytes)) perr :=   (* None: early fetch_head_only *)
-        match find_byte c_colon spec with
-        | Some pos =>
-            if mode_eqb m Negative then Err NegativeWithDestination
-            else
-              let src := non_empty (firstn pos spec) in
-              let dst := non_empty (skipn (S pos) spec) in
-              match src, dst with
-              | None, None => Ok (Some (Some HEAD, None))
-              | None, Some d => Ok (Some (Some HEAD, Some d))
-              | Some s, None => Ok (Some (Some s, None))
-              | Some s, Some d => Ok (Some (Some s, Some d))
-              end
-        | None =>
-            let src := non_empty spec in
-            match src with
-            | None => if mode_eqb m Negative then Ok (Some (None, None)) else Ok None
-            | Some _ => Ok (Some (src, None))
+      match find_byte c_colon spec with
+      | Some pos =>
+          if mode_eqb m Negative then Err NegativeWithDestination
+          else
+            let src := non_empty (firstn pos spec) in
+            let dst := non_empty (skipn (S pos) spec) in
+            match src, dst with
+            | None, None => Ok (m, Some (Some HEAD, None))
+            | None, Some d => Ok (m, Some (Some HEAD, Some d))
+            | Some s, None => Ok (m, Some (Some s, None))
+            | Some s, Some d => Ok (m, Some (Some s, Some d))
             end
-        end in
-      (sd <- split ;;
-       match sd with
-       | None => Ok (fetch_head_only m)
-       | Some (src, dst) =>
-           let src := match src with
-                      | Some s => if bytes_eqb s (bs "@") then Some HEAD else Some s
-                      | None => None
-                      end in
-           (sv <- validated src ;;
-            dv <- validated dst ;;
-            let '(src, src_pat) := sv in
-            let '(dst, dst_pat) := dv in
-            if negb (mode_eqb m Negative) && negb (Bool.eqb src_pat dst_pat) then Err PatternUnbalanced
-            else if mode_eqb m Negative then
-              match src with
-              | Some s =>
-                  if src_pat then Err NegativeGlobPattern
-                  else if looks_like_object_hash s then Err NegativeObjectHash
-                  else if negb (starts_with refs_prefix s) && negb (bytes_eqb s HEAD) then Err NegativePartialName
-                  else Ok {| smode := m; ssrc := src; sdst := dst |}
-              | None => Err NegativeEmpty
-              end
-            else Ok {| smode := m; ssrc := src; sdst := dst |})
-       end)%outcome
+      | None =>
+          let src := non_empty spec in
+          match src with
+          | None => if mode_eqb m Negative then Ok (m, Some (None, None)) else Ok (m, None)
+          | Some _ => Ok (m, Some (src, None))
+          end
+      end
   end.
+
+Definition parse_fetch (spec0 : bytes) : outcome rspec perr :=
+  ('(m, sd) <- parse_split spec0 ;;
+   match sd with
+   | None => Ok (fetch_head_only m)
+   | Some (src, dst) => parse_finish m src dst
+   end)%outcome.
 
 (* ---- match_group/util.rs ---------------------------------------------------------------------- *)
 
